@@ -100,6 +100,38 @@ let events_of_obs (s : string) : event list * int =
       ins evs in
   (evs, !reads)
 
+(* ---- symbolic tokens -------------------------------------------------- *)
+let zopt s = if s = "-" then None else Some (z_of_int (int_of_string s))
+let key_of_name s = bytes_of_hex (match s with "S" -> "53" | "O" -> "4f" | "X" -> "58" | "E" -> "45" | _ -> "3f")
+let alg_of_name = function "HS256" -> HS256 | "HS384" -> HS384 | "HS512" -> HS512 | "RS256" -> RS256
+                         | "none" -> AlgNone | _ -> AlgOther
+(* claims fields: iss exp nbf iat host ip at [sub] *)
+let claims_of = function
+  | iss :: exp :: nbf :: iat :: host :: ip :: at :: rest ->
+    { cl_iss = bytes_of_hex iss; cl_sub = (match rest with s :: _ -> bytes_of_hex s | [] -> []);
+      cl_exp = zopt exp; cl_nbf = zopt nbf; cl_iat = zopt iat;
+      cl_host = bytes_of_hex host; cl_ip = bytes_of_hex ip; cl_at = bytes_of_hex at }
+  | _ -> failwith "bad claims"
+let jws_of_term t =
+  match split_on ':' t with
+  | ["E"] -> JEmpty
+  | ["U"] -> JUnparseable
+  | "C" :: alg :: key :: rest -> JCompact (alg_of_name alg, key_of_name key, claims_of rest)
+  | _ -> failwith ("bad jws term " ^ t)
+
+let ukey s = if s = "-" then [] else key_of_name s
+let jwe_of_term t =
+  match split_on ':' t with
+  | ["U"] -> EUnparseable
+  | "X" :: kalg :: cenc :: key :: cty :: rest ->
+    let to_b s = List.map (fun c -> byte_of_int (Char.code c)) (List.of_seq (String.to_seq s)) in
+    let inner = (match rest with
+        | "P" :: cl -> InClaims (claims_of cl)
+        | "S" :: alg :: skey :: cl -> InSigned (alg_of_name alg, key_of_name skey, claims_of cl)
+        | _ -> InOther) in
+    EEnc (to_b kalg, to_b cenc, key_of_name key, cty = "1", inner)
+  | _ -> failwith ("bad jwe term " ^ t)
+
 (* ---- kinds ----------------------------------------------------------- *)
 let parse_answers s = { a_cookie = s.[0] = '1'; a_name = s.[1] = '1'; a_host = s.[2] = '1'; a_dial = s.[3] = '1' }
 let parse_redir s = { rf_clipboard = s.[0] = '1'; rf_port = s.[1] = '1'; rf_drive = s.[2] = '1';
@@ -230,6 +262,31 @@ let handle (fields : string list) : string * string =
   | "clientip" :: xff :: peer :: impl :: [] ->
     let m = hex_of_bytes (Model.client_ip (bytes_of_hex xff) (bytes_of_hex peer)) in
     (m, if m = impl then "ok" else "fail:client-address")
+  | "paa" :: now :: idp :: term :: _tokhex :: impl :: [] ->
+    let tok = jws_of_term term in
+    let idpf at = (match split_on ':' idp with
+        | ["valid"; sub] -> (match tok with JCompact (_, _, c) when c.cl_at = at -> Some (bytes_of_hex sub) | _ -> None)
+        | _ -> None) in
+    let (res, q) = Model.check_paa (key_of_name "S") (z_of_int (int_of_string now)) idpf tok in
+    let m = (match res with
+        | PaaReject -> "rej:" ^ b01 q
+        | PaaAccept (h, i, u) -> Printf.sprintf "acc:%s:%s:%s:%s" (hex_of_bytes h) (hex_of_bytes i) (hex_of_bytes u) (b01 q)) in
+    (* the specification evaluated on the independently decoded term is the oracle *)
+    (m, if m = impl then "ok"
+        else if String.length impl >= 3 && String.sub impl 0 3 = "acc" then "fail:accepted-a-token-the-specification-rejects"
+        else "fail:" ^ (if String.length m >= 3 && String.sub m 0 3 = "acc" then "rejected-a-valid-token" else "idp-consultation-or-other"))
+  | "usertok" :: ek :: sk :: now :: term :: _tokhex :: impl :: [] ->
+    let m = (match Model.user_info (ukey ek) (ukey sk) (z_of_int (int_of_string now)) (jwe_of_term term) with
+        | Some sub -> "ok:" ^ hex_of_bytes sub | None -> "rej") in
+    (m, if m = impl then "ok"
+        else if String.length impl >= 2 && String.sub impl 0 2 = "ok" then "fail:verified-a-token-the-specification-rejects"
+        else "fail:rejected-a-valid-token")
+  | "tokeninfo" :: meth :: param :: ek :: sk :: now :: term :: impl :: [] ->
+    let v = Model.user_info (ukey ek) (ukey sk) (z_of_int (int_of_string now)) (jwe_of_term term) in
+    let p = (match param with "none" -> None | "empty" -> Some [] | _ -> Some [byte_of_int 120]) in
+    let st = int_of_n (Model.token_info_status (meth = "GET") p (v <> None)) in
+    let m = Printf.sprintf "%d:%s:0" st (match v with Some s when st = 200 -> hex_of_bytes s | _ -> "-") in
+    (m, if m = impl then "ok" else "fail:tokeninfo-status-or-disclosure")
   | k :: _ -> failwith ("unknown kind " ^ k)
   | [] -> failwith "empty line"
 
